@@ -267,6 +267,14 @@ fn main() {
         bench();
         return;
     }
+    if id == "payload" {
+        // verif payload <len> <class> <seed>: the bytes of one payload specification on stdout
+        use std::io::Write;
+        let g = |i: usize| args.get(i).and_then(|s| s.parse::<u64>().ok()).unwrap_or(0);
+        let b = ops::PaySpec::new(g(2) as usize, g(3) as u8, g(4)).bytes();
+        let _ = std::io::stdout().write_all(&b);
+        return;
+    }
     if id == "gen-fixtures" {
         let out = std::path::PathBuf::from(args.get(2).cloned().unwrap_or_else(|| usage()));
         match checks_c19::gen_fixtures(&out) {
